@@ -482,6 +482,48 @@ class Interp:
                     raise
                 self.emit("suppressed", exc=self.exc_class_name(pr.exc))
             return
+        if isinstance(cm, Obj) and self.lookup_class_attr(cm.cls, "__enter__") is not MISSING:
+            entered = self.call(self.getattr(cm, "__enter__"), [], {})
+            if item.optional_vars is not None:
+                self.assign(item.optional_vars, entered, env)
+            try:
+                yield from self.exec_block(st.body, env)
+            except PyRaise as pr:
+                e = pr.exc
+                etype: Any = e.cls if isinstance(e, Obj) else ExtRef("builtins." + self.exc_class_name(e))
+                swallow = self.call(self.getattr(cm, "__exit__"), [etype, e, None], {})
+                if not self.truth(swallow, "__exit__"):
+                    raise
+                return
+            except (ReturnSignal, BreakSignal, ContinueSignal):
+                self.call(self.getattr(cm, "__exit__"), [None, None, None], {})
+                raise
+            self.call(self.getattr(cm, "__exit__"), [None, None, None], {})
+            return
+        if isinstance(cm, ExtObj) and cm.kind == "generator_cm":
+            gen = cm.attrs["gen"]
+            ok, entered = self.next_value(gen)
+            if not ok:
+                raise self.exc("RuntimeError", "generator didn't yield")
+            if item.optional_vars is not None:
+                self.assign(item.optional_vars, entered, env)
+            try:
+                yield from self.exec_block(st.body, env)
+            except PyRaise as pr:
+                try:
+                    gen.host.throw(pr)
+                except StopIteration:
+                    return  # the generator swallowed the exception
+                except PyRaise:
+                    raise
+                raise self.exc("RuntimeError", "generator didn't stop after throw()")
+            except (ReturnSignal, BreakSignal, ContinueSignal):
+                self.next_value(gen)
+                raise
+            ok, _ = self.next_value(gen)
+            if ok:
+                raise self.exc("RuntimeError", "generator didn't stop")
+            return
         entered = self.models.context_enter(self, cm)
         if item.optional_vars is not None:
             self.assign(item.optional_vars, entered, env)
@@ -637,6 +679,9 @@ class Interp:
             if n in ("functools.cache", "functools.lru_cache"):
                 fn.cached = True
                 return fn
+            if n == "contextlib.contextmanager":
+                fn.kind = "contextmanager"
+                return fn
             if n == "dataclasses.dataclass":
                 return self._make_dataclass(fn, {})
             raise self.unsupported(f"decorator {n} on {name}")
@@ -777,7 +822,10 @@ class Interp:
         if isinstance(node, ast.Lambda):
             return self._with_frame(info, lambda: self.eval(node.body, env))
         if info.is_generator:
-            return self.make_generator(info, node.body, env)  # type: ignore[attr-defined]
+            g = self.make_generator(info, node.body, env)  # type: ignore[attr-defined]
+            if fref.kind == "contextmanager":
+                return ExtObj("generator_cm", {"gen": g})
+            return g
 
         def run() -> Any:
             try:
